@@ -37,7 +37,7 @@ EXTRA = {
         "a source without origin (`origin=None`) has no input locations; the ancestor clause is evaluated when "
         "every source's ancestors are defined, the derived-origin / parents clause always",
         "a frame with neither rows nor columns (shape (0, 0)) is dropped by pandas.concat before pdtable is asked "
-        "and is not counted as a source of a concat",
+        "(unless every operand is like that) and is then not counted as a source of the concat",
         "column labels are compared as (type, repr) tokens; labels that are equal in Python but of different "
         "type (1, 1.0, True) are not generated",
         "display_unit / display_format propagation is modelled and compared but is not part of the statement",
@@ -62,8 +62,15 @@ _CURRENT = None      # the World receiving recorded __finalize__ calls
 
 
 def tok(label):
-    if hasattr(label, "item") and not isinstance(label, (str, bytes, tuple)):
+    import datetime
+    import numpy as np
+    import pandas as pd
+    if isinstance(label, (np.datetime64, datetime.datetime)):
+        return "datetime:" + pd.Timestamp(label).isoformat()   # Timestamp / datetime64 / datetime: one label
+    if isinstance(label, np.generic):
         label = label.item()          # numpy scalar labels (df.columns.values) == their Python value
+    if isinstance(label, tuple):
+        return "tuple:(" + ",".join(tok(x) for x in label) + ")"
     return f"{type(label).__name__}:{label!r}"
 
 
@@ -871,8 +878,9 @@ def check_result(res, world, name, safe, sources, pre, R, exc, ws_outer, calls):
     from pdtable.frame import TableDataFrame, InvalidTableCombineError
     from pdtable.table_metadata import ColumnUnitException, InvalidNamingError
     # sources carrying metadata; pandas.concat drops operands of shape (0, 0) before anything else happens
+    drop00 = name.startswith("concat") and any(sum(s.shape) > 0 for s in sources)
     src_info = [(s, p) for s, p in zip(sources, pre)
-                if p is not None and not (name.startswith("concat") and sum(s.shape) == 0)]
+                if p is not None and not (drop00 and sum(s.shape) == 0)]
     # --- degrade path of __finalize__: plain DataFrame exactly, with the warning
     for c in calls:
         if c["exc"] is None and c["res"] != "table":
